@@ -497,6 +497,9 @@ func (c *Context) Authorize(request *http.Request, route *MatchedRoute) (interfa
 
 	applies, usr, err := route.Authenticators.Authenticate(request, route)
 	if !applies || err != nil || !route.Authenticators.AllowsAnonymous() && usr == nil {
+		// a refused request has not been authenticated: the route must go on saying so (NeedsAuth),
+		// whichever requirement was looked at last
+		route.Authenticator = nil
 		if err != nil {
 			return nil, nil, err
 		}
@@ -504,6 +507,7 @@ func (c *Context) Authorize(request *http.Request, route *MatchedRoute) (interfa
 	}
 	if route.Authorizer != nil {
 		if err := route.Authorizer.Authorize(request, usr); err != nil {
+			route.Authenticator = nil
 			if _, ok := err.(errors.Error); ok {
 				return nil, nil, err
 			}
